@@ -1,4 +1,5 @@
 """C03 — request paths are normalised once; unsafe paths never reach a handler."""
+from .lib_c01 import VALUE_PRESERVING, sources
 from .lib import (ITER_PLUMBING, PLUMBING, callee_allow, callers, closure_args_of_call, const_int, element_sources, http_error_ctors_on_error_path,
                   lit_strs, operand_local, result_split, status_const_of_ctor)
 
@@ -23,8 +24,8 @@ OWNED = [r"string::ToString::to_string$", r"Cow::<'_, B>::into_owned$", r"borrow
 
 
 def _seg_fns(ctx, R):
-    top = ctx.need_fn(ctx.ds, R, r"^router::input_path_to_segments$")
-    return top, [top] + ctx.ds.descendants(top)
+    top = ctx.need_fn(ctx.dsn, R, r"^router::input_path_to_segments$")
+    return top, [top] + ctx.dsn.descendants(top)
 
 
 def _sinks(f):
@@ -44,7 +45,7 @@ def r1_decode_once(ctx):
     R = ctx.rule("C03.R1", "percent-decoding has exactly one call site on the request path; its argument is an element of str::split(path,'/') with empty elements "
                  "filtered out and nothing in between; the decoded value goes through decode_utf8 whose Err propagates; every segment handed on is that decoded value", floor=7)
     top, fns = _seg_fns(ctx, R)
-    sites = callers(ctx.ds, DECODE)
+    sites = callers(ctx.dsn, DECODE)
     inside = [(f, bb, t) for f, bb, t in sites if f in fns]
     ctx.check(R, "decode-sites-in-input_path_to_segments", len(inside) == 1,
               "percent_decode* call sites inside input_path_to_segments: %d (want exactly 1: decode once)" % len(inside), top)
@@ -59,7 +60,7 @@ def r1_decode_once(ctx):
     bad = callee_allow(sl, PLUMBING + ITER_PLUMBING + [r"str::<impl str>::split$", r"iter::Iterator::filter$"])
     ctx.check(R, "decode-arg-untransformed", not bad and not any(a[0] == "binop" for a in sl.atoms),
               "between the split element and percent_decode_str: %s" % ([b[0] for b in bad] or "no transformation"), (f, bb))
-    srcs = element_sources(ctx.ds, f, arg)
+    srcs = element_sources(ctx.dsn, f, arg)
     ok_split = ok_path = ok_nodecode = False
     filt = False
     for g, it_op, how in srcs:
@@ -161,23 +162,24 @@ def r2_dot_segments(ctx):
 
 def r3_400_before_lookup(ctx):
     R = ctx.rule("C03.R3", "in lookup_route the segment error becomes HttpError::for_bad_request (status 400) and the error case excludes every handler selection; the walk consumes exactly the validated segments", floor=5)
-    lr = ctx.need_fn(ctx.ds, R, r"^router::HttpRouter::<Context>::lookup_route$")
+    lr = ctx.need_fn(ctx.dsn, R, r"^router::HttpRouter::<Context>::lookup_route$")
     cs = lr.live_calls(r"^router::input_path_to_segments$")
-    allc = callers(ctx.ds, r"^router::input_path_to_segments$")
+    allc = callers(ctx.dsn, r"^router::input_path_to_segments$")
     ctx.check(R, "single-caller", len(cs) == 1 and len(allc) == 1, "input_path_to_segments is called from %s" % sorted(set(f.id for f, _, _ in allc)), lr)
     if len(cs) != 1:
         return
     bb, t = cs[0]
     names = {n: [p["l"] for p in pls if not p["p"]] for n, pls in lr.names.items()}
     ps = lr.slice(t["args"][0])
-    ctx.check(R, "arg-is-path-param", ps.params() == names.get("path", [3]) and not callee_allow(ps, PLUMBING),
+    path_params = [l for l in names.get("path", [3]) if 1 <= l <= lr.argc] or [3]    # (an inlined helper may have a local of the same name)
+    ctx.check(R, "arg-is-path-param", ps.params() == path_params and not callee_allow(ps, PLUMBING),
               "argument slices to params %s (path param is %s)" % (ps.params(), names.get("path")), (lr, bb))
     sp = result_split(lr, t["dest"]["l"])
     if sp is None:
         ctx.lost(R, "the Ok/Err split of input_path_to_segments' result in lookup_route")
         return
     ctors = http_error_ctors_on_error_path(lr, sp)
-    st = status_const_of_ctor(ctx.ds, "for_bad_request")
+    st = status_const_of_ctor(ctx.dsn, "for_bad_request")
     ctx.check(R, "segment-error-is-400", ctors == {"error::HttpError::for_bad_request"} and st == {400},
               "error constructors on the segment-error path: %s; status constants in for_bad_request=%s" % (sorted(ctors) or "none", sorted(st or [])), (lr, sp["switch_bb"]))
     sites = lr.live_calls(r"^router::find_handler_matching_version$") + lr.live_calls(r"iter::Iterator::any$")
@@ -194,8 +196,8 @@ def r3_400_before_lookup(ctx):
     okw = False
     consumers = lr.live_calls(r"iter::IntoIterator::into_iter$|slice::<impl \[T\]>::iter$|vec::Vec::<T, A>::(into_iter|iter|drain)$|vec::IntoIter")
     for wbb, wt in consumers:
-        ws = lr.slice(wt["args"][0])
-        if ws.has_call(r"^router::input_path_to_segments$") and not callee_allow(ws, PLUMBING + [r"input_path_to_segments$", r"Result::<T, E>::map_err$"]):
+        srcs = sources(lr, wt["args"][0], VALUE_PRESERVING + [r"ops::Try::branch$"])
+        if srcs and all(p.is_call(r"^router::input_path_to_segments$") and p.npath() == ["+", "0"] for p in srcs):
             okw = True
     ctx.check(R, "walk-consumes-validated-segments", okw, "the segment iterator walked by lookup_route is built from input_path_to_segments' Ok payload unmodified: %s" % okw, lr)
 
